@@ -608,6 +608,7 @@ package decorator
 // The generated fragment collector (decorator-fragment-generated.go) recurses over the ast with the same frame.
 //@ func (f *fileDecorator) addNodeFragments
 //@ modifies allbut(map(ast.Node, dst.Node); map(dst.Node, ast.Node); heap(Decorator.Map); heap(fileDecorator.Decorator); heap(Decorator.Resolver); heap(Decorator.Path); heap(Decorator.Filenames); heap(Decorator.Fset); map(*dst.File, string); heap(fileDecorator.before); heap(fileDecorator.after); heap(fileDecorator.decorations); map(*ast.Object, *dst.Object); map(*dst.Object, *ast.Object); map(*ast.Scope, *dst.Scope); map(*dst.Scope, *ast.Scope))
+//@ tracks fresh: f.fragsFresh()
 //@ requires fresh: f.fragsFresh()
 //@ ensures fresh: f.fragsFresh()
 //@ loop * invariant fresh: f.fragsFresh()
@@ -705,8 +706,9 @@ package decorator
 //@ pure func fragAttached(x fragment) *decorationFragment { typeof(x) == type(*commentFragment) ? cast(x, type(*commentFragment)).Attached : (typeof(x) == type(*newlineFragment) ? cast(x, type(*newlineFragment)).Attached : nil) }
 //@ pure func fragUnattached(x fragment) bool { (typeof(x) == type(*commentFragment) ==> cast(x, type(*commentFragment)).Attached == nil) && (typeof(x) == type(*newlineFragment) ==> cast(x, type(*newlineFragment)).Attached == nil) }
 
+//@ pure func fragKnown(x fragment) bool { typeof(x) == type(*decorationFragment) || typeof(x) == type(*commentFragment) || typeof(x) == type(*newlineFragment) || typeof(x) == type(*tokenFragment) || typeof(x) == type(*stringFragment) || typeof(x) == type(*badFragment) }
 //@ pred (f *fileDecorator) fragsDistinct() bool {
-//@   (forall j int :: {f.fragments[j]} 0 <= j && j < len(f.fragments) ==> ref(f.fragments[j]) != 0 && allocated(ref(f.fragments[j]))) &&
+//@   (forall j int :: {f.fragments[j]} 0 <= j && j < len(f.fragments) ==> ref(f.fragments[j]) != 0 && allocated(ref(f.fragments[j])) && fragKnown(f.fragments[j])) &&
 //@   (forall j int, k int :: {f.fragments[j], f.fragments[k]} 0 <= j && j < k && k < len(f.fragments) ==> ref(f.fragments[j]) != ref(f.fragments[k]))
 //@ }
 
@@ -714,7 +716,11 @@ package decorator
 //@   f.fragsDistinct() && (forall m int :: {f.fragments[m]} 0 <= m && m < len(f.fragments) ==> fragUnattached(f.fragments[m]))
 //@ }
 
+// badBefore(m): how many bad fragments lie in [from, m) — a definition by recursion, stated as an assumption.
+//@ uninterp func badBefore(m int) int
+
 //@ func (f *fileDecorator) findIndentedComments
+//@ assumes bad_count_def: badBefore(from) == 0 && (forall m int :: {badBefore(m + 1)} from <= m && m < len(f.fragments) ==> badBefore(m + 1) == badBefore(m) + (typeof(f.fragments[m]) == type(*badFragment) ? 1 : 0))
 //@ requires distinct: f.fragsDistinct()
 //@ requires from: 0 <= from
 //@ requires rest_unattached: forall m int :: {f.fragments[m]} from <= m && m < len(f.fragments) ==> fragUnattached(f.fragments[m])
@@ -727,6 +733,7 @@ package decorator
 //@ loop 1 invariant behind1: forall j int, m int :: {frags[1][j], f.fragments[m]} 0 <= j && j < len(frags[1]) && i <= m && m < len(f.fragments) ==> ref(frags[1][j]) != ref(f.fragments[m])
 //@ loop 1 invariant no_repeats: (forall j int, k int :: {frags[0][j], frags[0][k]} 0 <= j && j < k && k < len(frags[0]) ==> ref(frags[0][j]) != ref(frags[0][k])) && (forall j int, k int :: {frags[1][j], frags[1][k]} 0 <= j && j < k && k < len(frags[1]) ==> ref(frags[1][j]) != ref(frags[1][k])) && (forall j int, k int :: {frags[0][j], frags[1][k]} 0 <= j && j < len(frags[0]) && 0 <= k && k < len(frags[1]) ==> ref(frags[0][j]) != ref(frags[1][k]))
 //@ loop 1 invariant no_decoration_yet: forall d int :: {f.fragments[d]} from <= d && d < i && d < len(f.fragments) ==> !fragIsDec(f.fragments[d])
+//@ loop 1 invariant none_passed_over: len(frags[0]) + len(frags[1]) + badBefore(i) == i - from
 //@ ensures lengths: len(frags[0]) >= 0 && len(frags[1]) >= 0
 //@ ensures unattached0: forall j int :: {frags[0][j]} 0 <= j && j < len(frags[0]) ==> fragUnattached(frags[0][j]) && (fragIsComment(frags[0][j]) || fragIsNewline(frags[0][j]))
 //@ ensures unattached1: forall j int :: {frags[1][j]} 0 <= j && j < len(frags[1]) ==> fragUnattached(frags[1][j]) && (fragIsComment(frags[1][j]) || fragIsNewline(frags[1][j]))
